@@ -208,4 +208,58 @@ theorem bindType_complete (reg : Registry) (hid : SeqId reg) (root : Mod) (hroot
           ext (List.mem_singleton.mpr rfl) m hstar, htd, rfl⟩)
     · exact Or.inr rfl
 
+/-! ## Discharging the standing hypotheses on a concrete schema through the executable binding -/
+
+/-- What `bindType` answers is the only typedef the name binds to. -/
+theorem bindType_unique {reg : Registry} (hid : SeqId reg) {root : Mod} (hroot : root ∈ reg.mods)
+    {scope : List Stmt} {name : String} {m : Mod} {td : Stmt} {sc : List Stmt}
+    (h : bindType reg root scope name = .typedef m td sc) {m' : Mod} {td' : Stmt} {sc' : List Stmt}
+    (hb : Binds reg root scope name m' td' sc') : m' = m ∧ td' = td ∧ sc' = sc := by
+  rcases bindType_complete reg hid root hroot scope name m' td' sc' hb with h1 | h1
+  · rw [h] at h1
+    cases h1
+    exact ⟨rfl, rfl, rfl⟩
+  · rw [h] at h1
+    cases h1
+
+theorem unambiguousAt_of_bind {reg : Registry} (hid : SeqId reg) {root : Mod} (hroot : root ∈ reg.mods)
+    {scope : List Stmt} {t : Stmt} {m : Mod} {td : Stmt} {sc : List Stmt}
+    (h : bindType reg root scope t.arg = .typedef m td sc) : UnambiguousAt reg (root, scope, t) := by
+  intro m1 td1 sc1 m2 td2 sc2 h1 h2
+  obtain ⟨a1, a2, a3⟩ := bindType_unique hid hroot h h1
+  obtain ⟨b1, b2, b3⟩ := bindType_unique hid hroot h h2
+  exact ⟨a1.trans b1.symm, a2.trans b2.symm, a3.trans b3.symm⟩
+
+theorem unambiguousAt_of_builtin {reg : Registry} {root : Mod} {scope : List Stmt} {t : Stmt}
+    (h : builtinNames.contains t.arg = true) : UnambiguousAt reg (root, scope, t) := by
+  intro m1 td1 sc1 m2 td2 sc2 h1 _
+  have : builtinNames.contains t.arg = false := by cases h1 <;> assumption
+  rw [h] at this
+  cases this
+
+/-- The sites a type statement bound by `bindType` uses: its typedef's type statement and its member types. -/
+theorem uses_of_bind {reg : Registry} (hid : SeqId reg) {root : Mod} (hroot : root ∈ reg.mods)
+    {scope : List Stmt} {t : Stmt} {m : Mod} {td : Stmt} {sc : List Stmt} {tt : Stmt}
+    (hb : bindType reg root scope t.arg = .typedef m td sc) (htt : td.one? "type" = some tt)
+    {x : Site} (h : Uses reg (root, scope, t) x) :
+    x = (m, td :: sc, tt) ∨ ∃ ut ∈ t.all "type", x = (root, t :: scope, ut) := by
+  cases h with
+  | base m' td' sc' tt' hbind htt' =>
+    obtain ⟨rfl, rfl, rfl⟩ := bindType_unique hid hroot hb hbind
+    rw [htt] at htt'
+    cases htt'
+    exact Or.inl rfl
+  | member ut hut => exact Or.inr ⟨ut, hut, rfl⟩
+
+/-- … and those of one that names a built-in type: its member types. -/
+theorem uses_of_builtin {reg : Registry} {root : Mod} {scope : List Stmt} {t : Stmt}
+    (hb : builtinNames.contains t.arg = true) {x : Site} (h : Uses reg (root, scope, t) x) :
+    ∃ ut ∈ t.all "type", x = (root, t :: scope, ut) := by
+  cases h with
+  | base m' td' sc' tt' hbind htt' =>
+    have : builtinNames.contains t.arg = false := by cases hbind <;> assumption
+    rw [hb] at this
+    cases this
+  | member ut hut => exact ⟨ut, hut, rfl⟩
+
 end Goyang.Lemmas.TypesSpecBind
